@@ -26,6 +26,7 @@ def run(c):
     r3_blocks(c)
     r4_reverse(c)
     r5_disorder(c)
+    r6_reverse_form(c)
 
 
 # --------------------------------------------------------------------------- R1
@@ -339,3 +340,16 @@ def r5_disorder(c):
     resets = [n for n in walk_no_nested(loop) if isinstance(n, ast.Assign) and isinstance(n.targets[0], ast.Name) and n.targets[0].id == flag
               and isinstance(n.value, ast.Constant) and n.value.value is False]
     c.check("C01.R5", not resets, repo.loc(m, resets[0] if resets else loop), "base_diff/disorder-monotone", f"`{flag}` is reset inside the loop", key_text="disorder-reset")
+
+
+# --------------------------------------------------------------------------- R6
+def r6_reverse_form(c):
+    """the removal command of a rule is <negation word> + blank + row (and the plain row for a rule written in negated form)"""
+    from rules import c07
+    repo = c.repo
+    c.rule("C01.R6", "rulebook.patching._make_reverse builds the removal template as <vendor negation word> + ' ' + row, and recognises a rule already written in negated form by "
+                     "<negation word> + ' ' (with the blank): otherwise the removal of a rule whose first word merely begins with the negation letters (`notify ...` under `no`) is a "
+                     "garbage command, the line stays on the device and the second diff is never empty (same sibling check as C07.R2)")
+    pm = repo.module("annet.rulebook.patching")
+    f1 = repo.func("annet.rulebook.patching", "_make_reverse")
+    c07.reverse_site(c, pm, f1, f1, f1.args.args[1].arg, f1.args.args[0].arg, "patching._make_reverse", rid="C01.R6")
